@@ -44,9 +44,8 @@ func c15F1(idx int, r *Result) {
 	var lib strings.Builder
 	if vv != absent {
 		fmt.Fprintf(&lib, "%slet v = 41;\n", vv.prefix())
-	} else {
-		lib.WriteString("let hidden = 41;\n")
 	}
+	// (no global at all when v is absent: a library module need not have any)
 	if tv != absent {
 		fmt.Fprintf(&lib, "%stype T = { x: int };\n", tv.prefix())
 	}
